@@ -20,6 +20,15 @@ def _resolve(spec):
             obj = obj.__func__
         while hasattr(obj, "__wrapped__"):
             obj = obj.__wrapped__
+        # decorators that do not use functools.wraps (jaxley's only_allow_module): the real function is in the closure
+        for _ in range(3):
+            if getattr(obj, "__name__", "") == "wrapper" and getattr(obj, "__closure__", None):
+                inner = [c.cell_contents for c in obj.__closure__ if callable(getattr(c, "cell_contents", None))
+                         and hasattr(c.cell_contents, "__code__")]
+                if inner:
+                    obj = inner[0]
+                    continue
+            break
         return obj
     except Exception:
         return None
